@@ -12,7 +12,7 @@ cleanup() { git -C /repo worktree remove --force $WT 2>/dev/null; rm -rf /tmp/tr
 trap cleanup EXIT
 git -C $WT apply $REV "$P" || { echo "patch does not apply"; exit 9; }
 cd /verif
-LUNARMON_REPO=$WT LUNARMON_OUT=/tmp/trymut-out-$$ ./check "$ID" "$TIER" > /tmp/trymut.$$.log 2>&1
+LUNARMON_FAILFAST=1 LUNARMON_REPO=$WT LUNARMON_OUT=/tmp/trymut-out-$$ ./check "$ID" "$TIER" > /tmp/trymut.$$.log 2>&1
 rc=$?
 grep -E "^(VIOLATION|HELD|INCONCLUSIVE|KNOWN)" /tmp/trymut.$$.log | head -5
 grep -E "^  violation" /tmp/trymut.$$.log | head -4 | cut -c1-400
